@@ -17,6 +17,7 @@ G_C17_OpensCreated  == dev = {} => C17_OpensCreated
 G_C17_Identity      == dev = {} => C17_Identity
 G_C17_CachedNotOpened == dev = {} => C17_CachedNotOpened
 G_C17_CacheSame     == dev = {} => C17_CacheSame
+G_C17_CacheKept     == dev = {} => C17_CacheKept
 G_C18_CleanRepos    == dev = {} => C18_CleanRepos
 G_C18_RepairedReload == dev = {} => C18_RepairedReload
 G_C27_Reject        == dev = {} => C27_Reject
